@@ -410,6 +410,17 @@ class C01(Prop):
                 "config": self.gen_config(rng, cls, nlayers), "info": self.gen_info(rng)}
 
     def generate(self, rng, tier):
+        if rng.random() < 0.25:
+            # light SRR stream: a 1x1 two-layer laser whose warm-up is a whole number of acquisitions of a scan time
+            # that is inexact in binary, so that (k*s)/s lands on either side of k in floating point
+            t = core.tok
+            s = rng.choice([0.1, 0.05, 0.2, 0.07, 0.15, 0.03, 0.3, 0.7, 1 / 3, 0.011, rng.randint(1, 999) / 1000])
+            k = rng.randint(0, 400)
+            cfg = {"class": "srr", "spotsize": t(35.0), "speed": t(140.0), "scantime": t(s), "warmup": t(k * s),
+                   "offsets": [[0, 2], [1, 2]]}
+            return {"kind": "roundtrip", "cls": "srr", "shapes": [[1, 1], [1, 1]],
+                    "elements": [{"name": "A", "dtype": "<f8", "bits": [[t(1.5)], [t(2.5)]]}], "cals": [], "config": cfg,
+                    "info": [], "stem": "laser", "chain": rng.choice([1, 2, 3])}
         kind = "layouts" if rng.random() < 0.3 else "roundtrip"
         case = {"kind": kind, **self.gen_laser(rng, old_layout=(kind == "layouts"))}
         case["stem"] = rng.choice(["laser", "a b", "x.y", "é中", "1"])
